@@ -3,15 +3,15 @@ From Tibc Require Import Base.Bytes Routing.Rules.
 
 (* rules, (s,d,p), observed: SetRoutingRules ok?, Authenticate result (after a
    successful set; when the set failed, authenticate ran on an empty store) *)
-Record c12_case := C12 { c_rules : list bytes; c_s : bytes; c_d : bytes; c_p : bytes;
-                         c_setok : bool; c_auth : bool }.
+Record c12_case := C12 { k_rules : list bytes; k_s : bytes; k_d : bytes; k_p : bytes;
+                         k_setok : bool; k_auth : bool }.
 
 Definition c12_model (c : c12_case) : bool * bool :=
-  let st := set_rules (c_rules c) in
-  (match st with Some _ => true | None => false end, authenticate st (c_s c) (c_d c) (c_p c)).
+  let st := set_rules (k_rules c) in
+  (match st with Some _ => true | None => false end, authenticate st (k_s c) (k_d c) (k_p c)).
 
 Definition c12_ok (c : c12_case) : bool :=
-  let '(a, b) := c12_model c in Bool.eqb a (c_setok c) && Bool.eqb b (c_auth c).
+  let '(a, b) := c12_model c in Bool.eqb a (k_setok c) && Bool.eqb b (k_auth c).
 
 Fixpoint mismatches_from {A} (ok : A -> bool) (i : N) (l : list A) : list N :=
   match l with
